@@ -37,13 +37,17 @@ def gen_pipelines(rng, tier):
             elif k == "filter":
                 fm = ["median", "bilateral", "median_for_intervals"][rng.randint(3)]
                 if fm == "bilateral":
-                    sg = float([0.4, 1.0, 2.0, 6.0, 0.34][rng.randint(5)])
+                    # 3 * sigma + 1 is truncated, not rounded: fractional parts on both sides of one half
+                    sg = float([0.4, 1.0, 2.0, 6.0, 0.34, 0.9, 1.2, 1.5, 2.6][rng.randint(9)])
                     overrides[i] = {"filter_method": fm, "sigma_space": sg}
                     d.update(method=fm, sig3=int(3 * sg + 1))
                 else:
                     fs = int([1, 3, 5, 7][rng.randint(4)])
                     overrides[i] = {"filter_method": fm, "filter_size": fs}
                     d.update(method=fm, fsize=fs)
+            elif k == "optimization" and rng.rand() < 0.5:
+                # an optional geometric prior computed by the plugin itself: no input is needed, the margin is the same
+                overrides[i] = {"geometric_prior": {"source": "internal"}}
             desc.append(d)
         out.append((kinds, overrides, desc))
     return out
@@ -108,6 +112,6 @@ def run(tier):
                                    "repeated_filter": kinds.count("filter") > 1},
                           {"meta": m, "expected": v["detail"]}, f"{cid}: {clause} pipeline={m['pipeline']} shape={m['shape']}")
     chk.rule = ("random walks of the documented automaton with margin-relevant parameters (windows 1..11, median / median_for_intervals "
-                "1..7, bilateral sigma_space 0.34..6.0, optimization stub, suffix styles) on 4 image shapes, each checked on two fresh real "
+                "1..7, bilateral sigma_space 0.34..6.0 (fractional 3*sigma on both sides of .5), optimization stub with and without an internal geometric prior, suffix styles) on 4 image shapes, each checked on two fresh real "
                 "machines; distinct = distinct (pipeline, parameters, shape)")
     return chk.finish()
